@@ -2,20 +2,12 @@
 """Generates /verif/MANIFEST.json from the table below (kept in one place so the file is always schema-valid)."""
 import json, os, sys
 
-CHECKS = {
- # id: (engine, category, technique, level text, level note, design ref)
- "C22": ("xstate", "model_checking", "explicit-state BFS over the real ClusterFSM (replay on fresh instances, canonical private-state key)",
-         "All reachable FSM states within the depth bound over a small universe (nodes, files, tokens, RBAC; valid, invalid, duplicate and batched commands) are enumerated by calling the real Apply; in every state: indexes == recomputed from primaries, snapshot->persist->restore == identity, restore at every prefix + replay of the rest == straight replay; per transition: same step from a restored snapshot gives the same state, batches are all-or-nothing.",
-         "Trusts encoding/json and the in-package dump accessor (overlay file zz_verif_dump.go); hashicorp/raft itself is not explored, committed logs are fed directly. Bounds: depth 4/5 from empty, 3/4 from a full RBAC hierarchy.", "§C22"),
- "C23": ("xstate", "model_checking", "explicit-state BFS over the real ClusterFSM with role/RBAC invariants in every state",
-         "Every state reachable by add/remove/update-node, node-state, promote/demote, assign-compactor and RBAC create/update/delete commands within the depth bound satisfies: <=1 node marked primary; a named primary exists and is marked primary; no RBAC child without its parent; and re-registering an existing node (AddNode as the join paths build it) changes neither its writer state nor the primary id.",
-         "AddNode payloads restricted to the shapes the coordinator emits; UpdateNode modelled as read-modify-write. Depth 5/6 over 4 node ids.", "§C23"),
-}
+CHECKS = json.load(open('/verif/bin/checks.json'))
 
 def main():
     checks = []
     for pid in sorted(CHECKS):
-        eng, cat, tech, text, note, ref = CHECKS[pid]
+        c = CHECKS[pid]; eng, cat, tech, text, note, ref = c['engine'], c['category'], c['technique'], c['text'], c['note'], c['ref']
         checks.append({
             "property_id": pid,
             "quick_cmd": f"./check {pid} quick",
@@ -41,10 +33,10 @@ def main():
             "add_only": True,
         },
         "engines": [
-            {"name": "xstate", "path": "/verif/harness/engine/xstate", "serves_properties": [p for p in sorted(CHECKS) if CHECKS[p][0] == "xstate"], "kind_free_text": "explicit-state BFS: state = history, successor = fresh real object + replay + one op, dedup by canonical private-state dump"},
-            {"name": "sched", "path": "/verif/harness/engine/sched", "serves_properties": [p for p in sorted(CHECKS) if CHECKS[p][0] == "sched"], "kind_free_text": "cooperative scheduler + stateless DFS with iterative preemption bounding over overlay-instrumented sync/chan/atomic operations"},
-            {"name": "crashfs", "path": "/verif/harness/engine/crashfs", "serves_properties": [p for p in sorted(CHECKS) if CHECKS[p][0] == "crashfs"], "kind_free_text": "recorded file-system history; every prefix and torn last write materialised, real recovery run on each"},
-            {"name": "enum", "path": "/verif/harness/engine/enum", "serves_properties": [p for p in sorted(CHECKS) if CHECKS[p][0] == "enum"], "kind_free_text": "bounded-exhaustive input enumeration (grammar product, simplest first) against a reference model or DuckDB"},
+            {"name": "xstate", "path": "/verif/harness/engine/xstate", "serves_properties": [p for p in sorted(CHECKS) if CHECKS[p]['engine'] == "xstate"], "kind_free_text": "explicit-state BFS: state = history, successor = fresh real object + replay + one op, dedup by canonical private-state dump"},
+            {"name": "sched", "path": "/verif/harness/engine/sched", "serves_properties": [p for p in sorted(CHECKS) if CHECKS[p]['engine'] == "sched"], "kind_free_text": "cooperative scheduler + stateless DFS with iterative preemption bounding over overlay-instrumented sync/chan/atomic operations"},
+            {"name": "crashfs", "path": "/verif/harness/engine/crashfs", "serves_properties": [p for p in sorted(CHECKS) if CHECKS[p]['engine'] == "crashfs"], "kind_free_text": "recorded file-system history; every prefix and torn last write materialised, real recovery run on each"},
+            {"name": "enum", "path": "/verif/harness/engine/enum", "serves_properties": [p for p in sorted(CHECKS) if CHECKS[p]['engine'] == "enum"], "kind_free_text": "bounded-exhaustive input enumeration (grammar product, simplest first) against a reference model or DuckDB"},
         ],
         "checks": checks,
         "not_applicable": na,
